@@ -21,7 +21,7 @@
           flags: the input has the structural trigger of a known finding (1 t_space_limit,
           2 t_glued, 4 t_nested) AND the vertical geometry of the implementation's own lines
           is right (vert_ok; otherwise 4). *)
-From Verif Require Export Layout.LineBreak.
+From Verif Require Export Layout.LineBreak Layout.LineBreakSpec.
 From Coq Require Import List ZArith QArith Qminmax Qabs Bool NArith.
 Import ListNotations.
 Open Scope Z_scope.
@@ -33,6 +33,8 @@ Inductive case :=
 | CPara (c : cfg) (items : list item) (out : list oline)
 | CSplit (exact : bool) (emv maxw : Z) (items : list item) (len resume : Z) (w : Q)
 | CMon (availq indentq : Q) (items : list item) (lines : list mline)
+| CBoxes (bs : list iboxo)
+| CVert (ls : list vline)
 | CBad (why : N).
 
 Definition model_out (c : case) : list oline :=
@@ -367,6 +369,8 @@ Definition check (c : case) : N :=
   | CMon availq indentq items lines =>
       (* the implementation's line width includes the text-indent of the first line *)
       mon availq availq items 0 lines
+  | CBoxes bs => if forallb ibox_ok bs then 0%N else 31%N
+  | CVert ls => if forallb vline_tall_b ls && vstacked_b ls then 0%N else 32%N
   | CBad _ => 10%N
   end.
 
